@@ -33,7 +33,7 @@ fn supervise(prop: &dyn Property, args: &[String]) -> i32 {
     let is_replay = args.get(2).map(|s| s == "--replay").unwrap_or(false);
     let tier = if args.get(2).map(|s| s == "thorough").unwrap_or(false) { Tier::Thorough } else { Tier::Quick };
     let mut child = std::process::Command::new(&exe).args(&args[1..]).env("XSGV_WORKER", "1").env("XSGV_CRASHDIR", &dir).spawn().expect("spawn worker");
-    let status = wait_with_timeout(&mut child, if is_replay { Some(Duration::from_secs(25)) } else { None });
+    let status = wait_with_timeout(&mut child, if is_replay { Some(Duration::from_secs(if prop.id() == "C07" { 25 } else { 900 })) } else { None });
     let code = match status {
         None => {
             // only replays have a limit: the saved case does not terminate
@@ -54,18 +54,23 @@ fn supervise(prop: &dyn Property, args: &[String]) -> i32 {
         let _ = std::fs::remove_dir_all(&dir);
         return code.code().unwrap_or(2);
     }
+    let crash_is_violation = prop.id() == "C07";
     if is_replay {
-        println!("VIOLATION property={} replay={}", prop.id(), args.get(3).cloned().unwrap_or_default());
-        println!("  the saved case killed the process ({:?})", code);
         let _ = std::fs::remove_dir_all(&dir);
-        return 1;
+        if crash_is_violation {
+            println!("VIOLATION property={} replay={}", prop.id(), args.get(3).cloned().unwrap_or_default());
+            println!("  the saved case killed the process ({:?})", code);
+            return 1;
+        }
+        eprintln!("INCONCLUSIVE property={} the saved case killed the worker process ({:?}): resource exhaustion or abort in the code under test; see C07", prop.id(), code);
+        return 2;
     }
     let hang = code.code() == Some(crashguard::EXIT_HANG);
     let dump = find(if hang { "hang-" } else { "crash-" }).and_then(|p| crashguard::read_dump(&p));
     let _ = &find;
     let _ = std::fs::remove_dir_all(&dir);
     let (evals, nontrivial, tapes) = match dump {
-        Some((e, n, a, b, c)) => (e, n, Some(Tapes { a, b, c })),
+        Some((e, n, a, b, c, small)) => (e, n, Some(Tapes { a, b, c, small })),
         None => (0, 0, None),
     };
     let tapes = match tapes {
@@ -80,8 +85,15 @@ fn supervise(prop: &dyn Property, args: &[String]) -> i32 {
     } else {
         format!("the process was killed while running a case ({:?}): stack overflow or abort", code)
     };
+    if !crash_is_violation {
+        let f = Failure::new(format!("worker process died: {}", msg));
+        let payload = serde_json::json!({"kind": "tapes", "tapes": {"a": hex(&tapes.a), "b": hex(&tapes.b), "c": hex(&tapes.c), "small": tapes.small}, "decoded": prop.describe(&tapes)});
+        let path = write_replay(prop.id(), &f, &payload);
+        eprintln!("INCONCLUSIVE property={} {} (not a verdict on this property; the case is saved at {})", prop.id(), msg, path.display());
+        return 2;
+    }
     let f = Failure::new(msg.clone());
-    let payload = serde_json::json!({"kind": "tapes", "tapes": {"a": hex(&tapes.a), "b": hex(&tapes.b), "c": hex(&tapes.c)}, "decoded": prop.describe(&tapes)});
+    let payload = serde_json::json!({"kind": "tapes", "tapes": {"a": hex(&tapes.a), "b": hex(&tapes.b), "c": hex(&tapes.c), "small": tapes.small}, "decoded": prop.describe(&tapes)});
     let path = write_replay(prop.id(), &f, &payload);
     if hang {
         // confirm in a fresh process before calling it a violation
@@ -110,7 +122,7 @@ fn main() {
     }
     if args[1] == "__render_c05" && args.len() == 5 {
         use std::io::Write;
-        let t = Tapes { a: xsgv::runner::unhex(&args[2]), b: xsgv::runner::unhex(&args[3]), c: xsgv::runner::unhex(&args[4]) };
+        let t = Tapes { a: xsgv::runner::unhex(&args[2]), b: xsgv::runner::unhex(&args[3]), c: xsgv::runner::unhex(&args[4]), small: false };
         let out = xsgv::props::c05::render_for_subprocess(&t);
         std::io::stdout().write_all(out.as_bytes()).unwrap();
         return;
@@ -124,13 +136,13 @@ fn main() {
         }
     };
     let worker = std::env::var("XSGV_WORKER").is_ok();
-    if id == "C07" {
-        if !worker {
-            std::process::exit(supervise(prop.as_ref(), &args));
-        }
-        if let Ok(d) = std::env::var("XSGV_CRASHDIR") {
-            crashguard::install(std::path::Path::new(&d), 20);
-        }
+    if !worker {
+        std::process::exit(supervise(prop.as_ref(), &args));
+    }
+    crashguard::limit_memory(std::env::var("XSGV_MEM_GIB").ok().and_then(|s| s.parse().ok()).unwrap_or(32));
+    if let Ok(d) = std::env::var("XSGV_CRASHDIR") {
+        // the per-case watchdog is C07's (termination is part of its statement); elsewhere it only guards the run
+        crashguard::install(std::path::Path::new(&d), if id == "C07" { 20 } else { 300 });
     }
     let code = if args[2] == "--replay" {
         match args.get(3) {
